@@ -175,6 +175,15 @@ def make_case(rng, with_faults):
                 pin = f"other{i}.o"
         prefix.append({"op": "match", "rule": rel, "input": pin, "type": "binary", "ret": rng.choice(["bool", "stream", "list"]), "search": rng.choice(["first", "all"])})
         pclass = pc if pclass == "none" else pclass + "," + pc
+    # the same path held another object a moment ago, and was disassembled with the same rule
+    if rng.random() < 0.15:
+        src0, _m0 = gen.gen_asm_source(rng, sections=[m["name"] for m in meta][:4] if not shape["obj"].startswith("real") else None)
+        e0 = gen.assemble(src0)
+        if e0 is not None and e0 != elf:
+            files["in.o"] = e0
+            prefix.append({"op": "match", "rule": "rule.yaml", "input": "in.o", "type": "binary", "ret": "stream"})
+            prefix.append({"op": "write", "path": "in.o", "content": util.enc_content(elf)})
+            pclass = "same-path-rebuilt" if pclass == "none" else pclass + ",same-path-rebuilt"
     shape["prefix"] = pclass
     only_addr = rng.random() < 0.3
     ops = list(prefix)
@@ -232,9 +241,11 @@ def evaluate_case(case, runner, seed=0):
     info = {"argv": [e["argv"] for e in res["events"] if e["seam"] == "spawn"], "escapes": res["escapes"], "vtime": res["vtime"],
             "digest": util.digest(res["events"]), "fired": res["fired"], "classes": []}
     state = dict(files)
+    runner.reset(files)
     for k, op in enumerate(ops):
         if op["op"] == "write":
             state[op["path"]] = op.get("content")
+            runner.apply_write(op)
             continue
         if not op.get("_main") and k != len(ops) - 1:
             continue
